@@ -375,7 +375,9 @@ inductive Step (c : Cfg) : State → State → Prop
   /-- `executor.submit(task)`: a new coroutine, bound to executor `e` -/
   | spawn (s : State) (h e : Nat) : s.fr h = .fresh →
       Step c s { s with fr := upd s.fr h .resuming, fex := upd s.fex h e }
-  /-- the executor the frame is bound to runs the (re)start -/
+  /-- the executor the frame is bound to runs the (re)start - or refuses the closure (`invoke` returns a
+  code != 0), in which case `resume_in_executor` resumes the frame in place: the outcome is a fault
+  input, the frame runs in both cases -/
   | run (s : State) (h : Nat) : s.fr h = .resuming → Step c s (s.run h)
   /-- a running coroutine evaluates `co_await futex(f).wait(v)` -/
   | wait (s : State) (h f v : Nat) : s.fr h = .running → s.fpc h = .idle →
